@@ -14,7 +14,7 @@ for log in sys.argv[1:]:
         if "demo_base_exit" not in f:
             print("skip", name, kv); continue
         src = None
-        mm = re.match(r"(C\d+)_M([23])_(\d+)", name)
+        mm = re.match(r"(C\d+)_M([234])_(\d+)", name)
         if mm:
             src = "/tmp/wt-%s/MUT%s/%s" % mm.groups()
         else:
